@@ -75,8 +75,8 @@ def run(ctx, cases_override=None):
     # ---- MC: Impl (IsMatchBlock & co) = Doc for every configuration within the bounds x corpus x command x state
     mcs = []
     if th:
-        # every block with <=2 match conditions and <=1 ignore condition; every match-only block with <=3 conditions
-        mcs.append(ctx.tlc("DispatchC09", "c09_mc.cfg", files={"c09_mc.cfg": cfg(1, 1, 1, 2, 1, False, MC_INV)},
+        # every block with <=1 match condition and <=1 ignore condition; every match-only block with <=3 conditions
+        mcs.append(ctx.tlc("DispatchC09", "c09_mc.cfg", files={"c09_mc.cfg": cfg(1, 1, 1, 1, 1, True, MC_INV)},
                            timeout=7200, allow_violation=True, workers=W))
         mcs.append(ctx.tlc("DispatchC09", "c09_mc2.cfg", files={"c09_mc2.cfg": cfg(1, 1, 0, 3, 0, False, "Inv_C09")},
                            timeout=7200, allow_violation=True, workers=W))
@@ -105,7 +105,10 @@ def run(ctx, cases_override=None):
         if th:
             cases += gen("c09_gen0.cfg", cfg(1, 1, 1, 1, 1, True, "EmitCase"))             # every (<=1 cond, <=1 cond) block
             cases += gen("c09_gen1.cfg", cfg(1, 1, 0, 2, 0, True, "EmitCase"))             # every match-only pair
-            cases += gen("c09_gen3.cfg", cfg(3, 2, 2, 3, 3, True, "EmitCase"), simulate=500, depth=80)
+            sim = gen("c09_gen3.cfg", cfg(3, 2, 2, 3, 3, True, "EmitCase"), simulate=300, depth=80)
+            for c in sim:
+                c["full"] = True          # simulated multi-block configurations: all 12 (command, state) points
+            cases += sim
         else:
             cases += gen("c09_gen0.cfg", cfg(1, 1, 0, 1, 0, True, "EmitCase"))             # single match condition (all atoms)
             cases += gen("c09_gen1.cfg", cfg(1, 0, 1, 0, 1, True, "EmitCase"))             # single ignore condition
@@ -121,7 +124,7 @@ def run(ctx, cases_override=None):
         cases = cases_override
         r = ctx.tlc("DispatchC09", "c09_gen0.cfg", files={"c09_gen0.cfg": cfg(0, 0, 0, 0, 0, False, "EmitCase")}, timeout=3000)
         head = prints(r, "CORPUS")[0][0]
-    hrec = {"corpus": head["corpus"], "combos": head["full"] if (th or cases_override is not None) else head["quick"]}
+    hrec = {"corpus": head["corpus"], "combos": head["full"] if cases_override is not None else head["quick"], "full": head["full"]}
     cpath = write_ndjson(ctx.path("c09_cases.ndjson"), [hrec] + cases)
     # ---- EXEC
     pint = ctx.build_pint()
@@ -159,7 +162,7 @@ def run(ctx, cases_override=None):
                 "formula; non-trivial = configurations with a block that applies to some corpus rules and not to others",
         "exhaustive": True,
         "configurations": len(cases), "binary_runs": sum(1 for r in trace if r["src"] == "binary"),
-        "corpus_rules": ncorp, "combos": len(hrec["combos"]), "trace_records": len(trace),
+        "corpus_rules": ncorp, "combos": sorted({len(r["combos"]) for r in trace}), "trace_records": len(trace),
     }
     return vlib.conclude(ctx, viols, "model_checking", cov, [
         "TLC checks Impl (transcribed isMatch/IsMatch/defaultRuleMatch/stateMatches) = Doc for every block within the MC bounds over a "
@@ -167,8 +170,8 @@ def run(ctx, cases_override=None):
         "verdict from the real code: config.Load of generated HCL + config.GetChecksForEntry + the marker check's own problem "
         "(in-process, entries parsed by the real parser from rendered files), plus `pint lint --json` of the real binary for a sample",
         "entry states other than noop are injected in-process (Entry.State), removed entries and invalid rules are outside the vocabulary",
-        "an `ignore` sub-block without a state condition is accepted under both readings of the documentation (with and without "
-        "the command-dependent state default)",
+        "the command-dependent state default is a default of `match:state` only: an `ignore` sub-block is satisfied by the conditions "
+        "defined on it (docs/configuration.md: 'matching all conditions defined on ignore')",
         "documented deviation (not judged): the code's ci default state list also contains `removed`",
     ], drift=drift)
 
